@@ -3,5 +3,6 @@ package checks
 
 import (
 	_ "verif/checks/c01"
+	_ "verif/checks/c02"
 	_ "verif/checks/c08"
 )
